@@ -291,6 +291,25 @@ func OracleNL(op M, res any, exec func(M) any) []Finding {
 						add("C09", "%s: attribute %s of node %q is %s, expected %s", name, f.GoName, id, js(attrOf(rn[0], f.GoName)), js(want))
 					}
 				}
+				// the kind of a shared node: what both say when they agree; the zero value (PACKAGE) of
+				// the one that would win is "no value", so the other's kind stays
+				if inA && inB {
+					ta, tb, tr := asInt(an[0]["type"]), asInt(bn[0]["type"]), asInt(rn[0]["type"])
+					wantT := ta
+					if ta != tb {
+						first, second := ta, tb // union: the second operand wins
+						if name == "add" {
+							first, second = tb, ta // add: the receiver keeps what it has
+						}
+						wantT = second
+						if second == 0 {
+							wantT = first
+						}
+					}
+					if (ta == tb || (name == "union" && tb == 0) || (name == "add" && ta != 0)) && tr != wantT {
+						add("C09", "%s: node %q is of kind %d in the result, the operands have %d and %d", name, id, tr, ta, tb)
+					}
+				}
 			}
 		}
 		if name == "union" {
